@@ -68,6 +68,9 @@ def eval_batch(case):
             got_lens = None
         elif op == "slice":
             sl = torch.tensor([[r["a"], r["b"]] for r in rows], dtype=torch.long).view(N, 2)
+            if case.get("colmajor"):  # the same bounds as a column-major view, e.g. torch.stack([starts, ends]).t()
+                sl = torch.stack([sl[:, 0].clone(), sl[:, 1].clone()]).t()
+            keep = [("slices", sl, sl.clone()), ("x", x, x.clone()), ("lens", lens, lens.clone())]
             lens_arg = lens if case["lens_given"] else None
             if case["module"]:
                 got, got_lens = _ps.quiet(M.ChunkBySlices(mode, VALUE), x, sl, lens_arg)
@@ -90,6 +93,13 @@ def eval_batch(case):
                 got = got.transpose(0, 1)
     except Exception as ex:
         return [("exception" + suffix, "%s: %s" % (type(ex).__name__, str(ex)[:200]), None)], info
+    # the caller's tensors are inputs: the bounds the caller asked for must still be there for the next call (features,
+    # then alignments, are chunked with the same slices)
+    for name, t, t0 in (keep if op == "slice" else ()):
+        if not torch.equal(t, t0):
+            fails.append(("arguments_mutated", "chunk_by_slices changed its argument `%s` in place: %s -> %s" % (
+                name, t0.tolist() if t0.numel() < 40 else "...", t.tolist() if t.numel() < 40 else "..."), None))
+            return fails, info
     # shapes
     want_T = max([r["n"] for r in rows] + [0]) if op != "mask" else T
     if got.dim() != 2 + len(feat) or got.shape[0] != N or tuple(got.shape[2:]) != feat or (
@@ -157,7 +167,8 @@ def _replay_group(ctx, op, mode, recs, passes):
                     T = maxlen if variant == "omitted" else maxlen + ctx.rng.choice([0, 0, 1, 2])
                     case = dict(op=op, mode=mode, T=T, feat=list(ctx.rng.choice(feats)), salt=ctx.rng.randrange(1 << 20),
                                 lens_given=variant == "given", module=ctx.rng.random() < 0.3,
-                                batch_first=ctx.rng.random() < 0.5, rows=[_row(r) for r in batch])
+                                batch_first=ctx.rng.random() < 0.5, colmajor=ctx.rng.random() < 0.4,
+                                rows=[_row(r) for r in batch])
                     _judge(ctx, site, case)
                     ctx.traces += len(batch)
 
@@ -187,6 +198,20 @@ def _replay_long_masks(ctx, recs, batches):
                     lens_given=True, module=ctx.rng.random() < 0.3, batch_first=ctx.rng.random() < 0.5, rows=rows)
         _judge(ctx, SITE["mask"], case)
         ctx.traces += len(rows)
+
+
+def _replay_full_masks(ctx):
+    """masks that select EVERYTHING (every row as long as the batch): N x T for N, T in 1..4 (N = T and N != T), both
+    layouts, function and module -- compaction is then the identity, with length T"""
+    for N in (1, 2, 3, 4):
+        for T in (1, 2, 3, 4):
+            for bf in (False, True):
+                for module in (False, True):
+                    rows = [dict(len=T, a=0, b=0, mask=[1] * T, out=list(range(1, T + 1)), n=T) for _ in range(N)]
+                    case = dict(op="mask", mode="constant", T=T, feat=list(ctx.rng.choice([(), (2,)])),
+                                salt=ctx.rng.randrange(1 << 20), lens_given=True, module=module, batch_first=bf, rows=rows)
+                    _judge(ctx, SITE["mask"], case)
+                    ctx.traces += N
 
 
 def _judge(ctx, site, case, depth=0):
@@ -373,6 +398,7 @@ def run(ctx):
         _replay_group(ctx, key[0], key[1], g, passes if key[0] != "mask" else 3 * passes)
         if key[0] == "mask":
             _replay_long_masks(ctx, g, 60 if ctx.quick else 600)
+            _replay_full_masks(ctx)
     _random_shift(ctx)
     if not ctx.quick:
         _selftest(ctx, recs)
